@@ -298,7 +298,8 @@ class CSSVariablesDeclaration(cssutils.util._NewBase):
                 # update seq
                 self.seq._readonly = False
 
-                variableName = normalize(variableName)
+                # the parsed name: escapes are resolved as in a parsed text
+                variableName = normalize(seq[0].value)
 
                 if variableName in self._vars:
                     for i, x in enumerate(self.seq):
